@@ -354,6 +354,8 @@ def run_impl(case):
     b''.join(out)
     code = int(status[0].split()[0])
     errs = env['wsgi.errors'].getvalue()
+    if 'CaseTimeout' in errs:
+        return {'hang': True}     # the alarm fired inside the request (the framework's catch-all swallowed it)
     obs = dict(status=code, traceback=bool(errs.strip()))
     if errs.strip():
         obs['error'] = errs.strip().split('\n')[-1][:160]
